@@ -12,7 +12,7 @@ EVENTS = ["connecting", "connected", "ready", "rejected", "poll", "text", "binar
           "protocol_error", "unresponsive", "disconnected", "connect_fail"]
 CONSTS = dict(HttpItems='HttpAll', Items='ItemsT', MaxItems=80, ChunkMax=4, MaxIdle=80, Dts={0, 5}, NAddr=2,
               Faults={"dns", "refused", "reqwrite", "recv_error", "recv_boom", "wait_raise", "write_error"},
-              Reacts={"none", "send", "ping", "close"}, ReactAt=set(EVENTS), MaxReacts=80, AbandonAt=set(), Conforming=False, AfterClose=True)
+              Reacts={"none", "send", "ping", "close", "badclose"}, ReactAt=set(EVENTS), MaxReacts=80, AbandonAt=set(), Conforming=False, AfterClose=True)
 CALL = {"send_text": "send_text", "send_ping": "send_ping", "close": "close"}
 
 
@@ -93,7 +93,7 @@ def random_script(rng, alpha, timers, with_faults=True, after_close=True):
             s['steps'].append({"kind": "data", "dt": dt, "items": len(chunk)})
     s['steps'].append({"kind": "eof", "dt": 0})
     at = sorted(rng.sample(range(0, 30), rng.randint(0, 6)))
-    s['react'] = [{"at": a, "call": rng.choice(["send_text", "send_ping", "close"])} for a in at]
+    s['react'] = [{"at": a, "call": rng.choice(["send_text", "send_ping", "close", "send_text", "send_ping", "badclose"])} for a in at]
     return s
 
 
@@ -107,7 +107,8 @@ def validate(run, tier, cfgname, cfg, n, mc='MC_C07', items='ItemsT', http='Http
     objs = []
     for i, (s, log) in enumerate(zip(scripts, logs)):
         rec = [r for r in replay.project(log) if r['k'] != 'rd']
-        fired = [{"at": c['at'], "call": CALL[c['m']]} for c in log if c['k'] == 'call']
+        fired = [{"at": c['at'], "call": ('badclose' if c['m'] == 'close' and c.get('reason', {}).get('n') == [0, 124] else CALL[c['m']])}
+                 for c in log if c['k'] == 'call']
         given = dict(s, react=fired)
         objs.append({"id": i, "script": given, "rec": sessprop.slim(rec, None, drop=('headers', 'msg', 'url', 'host', 'port', 'key', 'len', 'pl', 'raw', 'reason',
                                                                                    'cps', 'extensions', 'protocol', 'custom'))})
